@@ -154,19 +154,13 @@
 (defn payload [st v]
   (if (and (= st :error) (or (bytes? v))) "<msg>" (show v)))
 
-# An operator method written in Janet runs on the stack of the calling fiber; if it has to grow that stack,
-# the arithmetic opcode that called it stores its result through a stale pointer (vm.c: no vm_restore after
-# janet_binop_call -- a memory-safety defect outside this property, reported separately). Every test fiber
-# therefore first grows its stack beyond anything a test program needs, so that no run depends on it.
-(defn pregrow [n] (if (> n 0) (+ 1 (pregrow (- n 1))) 0))
-
 (defn exec
   "run compiled program f once; -> outcome text"
   [f argsf]
   (array/clear log)
   (put (in (in penv 'X) :ref) 0 9)
   (def args (argsf))
-  (def fb (fiber/new (fn [&] (pregrow 400) (f ;args)) :a))
+  (def fb (fiber/new (fn [&] (f ;args)) :a))
   (def b @"")
   (var n 0)
   (var going true)
